@@ -25,7 +25,7 @@ from .exceptions import BadInputError
 
 import operator
 from functools import lru_cache
-from math import floor
+from math import ceil, floor
 
 
 _operator_map = {op.__name__: op for op in [
@@ -1513,6 +1513,12 @@ class TimePoint:
         if second_of_minute is not None or minute_of_hour is not None:
             new = new.to_hour_minute_second()
         if second_of_minute is not None:
+            if new._second_of_minute % 1:
+                # Not on a whole second, so the next match cannot be before
+                # the next whole second (and the loop below steps in whole
+                # seconds, so it would never reach the requested value).
+                new._second_of_minute = float(ceil(new._second_of_minute))
+                new._tick_over()
             while new._second_of_minute != second_of_minute:
                 new._second_of_minute += 1.0
                 new._tick_over()
